@@ -92,6 +92,7 @@ class World:
         self.garbage, self.garbage_p = garbage, garbage_p  # hostile value at any position
         self.returns = []              # (response path, value returned by an explicit resolver)
         self.dir_calls = []            # (directive, path, canon(directive_args), args) recorded by @vtrec
+        self.p_null_nonnull = 0.0      # probability of null data at a non-null position (C01: "any resolver data")
         self.mutate_args = False       # resolvers scribble over the argument containers they were given (C15)
         self.arg_faults = set()        # (field name, argument name): the @vtgate argument hook raises (C08)
         self.shared_exc = None         # ONE exception instance raised by every "raise_shared" fault (known finding F11)
@@ -137,6 +138,8 @@ class World:
             return self.gen_value(rng, t[1], ident, T, f, True)
         if not nonnull and rng.random() < self.P_NULL:
             return None
+        if nonnull and self.p_null_nonnull and rng.random() < self.p_null_nonnull:
+            return None     # resolver data may be null where the schema says non-null: a field error the reference predicts
         if t[0] == "L":
             n = rng.choice([0, 1, 2, 2, 3])
             return [self.gen_value(rng, t[1], "%s#%d" % (ident, i), T, f) for i in range(n)]
@@ -428,4 +431,7 @@ def make_exception(kind, key):
 
     class UserError(TartifletteError):
         pass
+    if len(key) % 2:
+        # the user-facing text given separately from the developer message
+        return UserError("developer message", user_message="user message at %s" % key, extensions={"code": "E_INJECTED", "key": key})
     return UserError("user message at %s" % key, extensions={"code": "E_INJECTED", "key": key})
